@@ -552,7 +552,8 @@ vh_unit(const char *gen, uint64_t idx, vh_unit_fn fn, void *arg)
         return;
     }
     snprintf(cur_unit, sizeof cur_unit, "%s", name);
-    vh_unit_salt = vh_mix(seq ^ vh_seed0 ^ idx);
+    /* (seq and idx are often equal - one generator enumerated in order - so they must not simply cancel out) */
+    vh_unit_salt = vh_mix(vh_mix(seq + 0x51edull) ^ vh_seed0 ^ (idx * 0x9e3779b97f4a7c15ull));
     memset(vh->cur, 0, sizeof vh->cur);
     vh->tag[0] = 0;
     units_run++;
